@@ -132,8 +132,28 @@ class Ctx:
     def time_left(self):
         return self.budget_s - self.elapsed()
 
+    def _maybe_checkpoint(self):
+        """Every ~15 s the shard writes what it has observed so far next to its output file, so that a shard the parent has to kill
+        (a call into the code under test that never returns while holding the GIL) does not take its observations with it."""
+        path = getattr(self, "checkpoint_path", None)
+        if not path:
+            return
+        now = time.monotonic()
+        if now - getattr(self, "_last_ckpt", 0.0) < 15.0:
+            return
+        self._last_ckpt = now
+        try:
+            tmp = path + ".tmp"
+            with open(tmp, "w") as f:
+                f.write(dumps(self.dump()))
+            import os
+            os.replace(tmp, path)
+        except Exception:  # noqa: BLE001 - observability only
+            pass
+
     def more(self):
         """False once the soft time budget is used up (recorded; never a verdict)."""
+        self._maybe_checkpoint()
         if self.elapsed() > self.budget_s:
             self.stopped_by_time = True
             return False
